@@ -54,6 +54,7 @@ impl Session {
         self.cases += 1;
         self.case_start = self.lines.len();
         self.lines.push(format!("# case {} {}", self.cases, kind));
+        crate::watch::begin_case(&format!("# case {} {}", self.cases, kind));
         self.interp.objs.clear();
         self.count(&format!("case:{}", kind));
     }
